@@ -111,6 +111,9 @@ def py_routed_first(op, routes):
     return False
 
 
+LONG_KEYS = ["d/" + "k" * 1022, "k" * 1015 + "/y.txt", "a/b/" + "z" * 1006]     # 1024, 1021 and 1010 bytes
+
+
 def run(ctx):
     rng = ctx.rng
     known = vlib.known_findings("C01")
@@ -211,6 +214,8 @@ def run(ctx):
             else:
                 q, h = build_view(o, extra, types)
             cfg, style = cfgs[(vi + len(o["name"])) % len(cfgs)] if ctx.quick else (None, None)
+            # object keys: mostly short; every fourth view a key at or just below the 1024-byte limit (valid in both addressing styles)
+            okey = LONG_KEYS[vi % len(LONG_KEYS)] if (vi + len(o["name"])) % 4 == 0 else "dir/key.txt"
             for (cfg, style) in ([(cfg, style)] if ctx.quick else cfgs):
                 k = kind_of(o)
                 if k is None:
@@ -218,9 +223,9 @@ def run(ctx):
                 elif k == "root":
                     path, host = "/", "s3.example.com"
                 elif style == "vh":
-                    path, host = ("/" if k == "bucket" else "/dir/key.txt"), "my-bucket.s3.example.com"
+                    path, host = ("/" if k == "bucket" else "/" + okey), "my-bucket.s3.example.com"
                 else:
-                    path, host = ("/my-bucket" if k == "bucket" else "/my-bucket/dir/key.txt"), "s3.example.com"
+                    path, host = ("/my-bucket" if k == "bucket" else "/my-bucket/" + okey), "s3.example.com"
                 uri = path + ("?" + qtext(q) if q else "")
                 headers = [["host", host.encode().hex()]] + [[a, v.encode().hex()] for a, v in h]
                 _, payload = types[o["name"]]
@@ -257,7 +262,7 @@ def run(ctx):
             if kid and kid in known:
                 if kid not in reported:
                     ctx.known(kid, known[kid]); reported.add(kid)
-            elif resp.get("status", 0) >= 500 or code in ("NotImplemented", "MethodNotAllowed", "InvalidBucketName", "?"):
+            elif resp.get("status", 0) >= 500 or code in ("NotImplemented", "MethodNotAllowed", "InvalidBucketName", "KeyTooLongError", "?"):
                 ctx.violation(dict(stage="e2e", kind="a well-formed request for the operation was not dispatched", case=show,
                                    status=resp.get("status"), code=code))
             else:
